@@ -555,6 +555,42 @@ def rule_r11(repo, run, T):
     run.floor(R, "converter branches that keep the argument object", nb, 1)
 
 
+def rule_r12(repo, run, T):
+    R = run.rule("C03.R12", "optional arguments and list round trips: a default of 0 is a default, an inout list comes back "
+                            "with the length it came in with, a vector is filled once")
+    from sa import lints
+    found, n = lints.truthiness_of_optional(repo, ("wrapp",), fields=("init",))
+    for mn, q, node, msg in found:
+        run.fail(R, "%s.%s:truthiness@%s" % (mn, q, re.sub(r"\s+", " ", repo.module(mn).seg(node.test))[:40]),
+                 msg + ": the argument becomes required in the Python signature", repo.module(mn).loc(node))
+    run.rules[R]["obligations"] += n
+    run.rules[R]["discharged"] += n - len(found)
+    py = T["py"]
+    k = 0
+    for name, e in sorted(py.resolve_all("c++").items()):
+        if "inout" in name.split("_") and name.endswith("_list"):
+            for line in e.lines("post_call"):
+                m = re.search(r"\{hnamefunc\d\}\s*\\?t?\s*\(([^)]*)\)", line.replace("\t", " "))
+                if m and "{cxx_var}" in m.group(1):
+                    k += 1
+                    args = [a.strip() for a in m.group(1).split(",")]
+                    run.check(R, "wrapp.py_statements[%s]:result-length" % name, args[-1] == "{size_var}",
+                              "the list returned for an intent(inout) argument is built with length %s: it must be the length "
+                              "of the list that was passed in ({size_var}); {array_size} is 1 unless +dimension is given"
+                              % args[-1], py.loc(e.raw), sample=dict(entry=name, call=line.strip()))
+    run.floor(R, "inout list entries", k, 1)
+    # helpers that build a std::vector from a sequence: either size it and assign, or reserve and push_back
+    nh = 0
+    for key, h in sorted(T["helpers"].c.items()):
+        for kk, text in tables.helper_sources(h):
+            if "push_back" in text:
+                nh += 1
+                run.check(R, "whelpers.CHelpers[%s].%s:fill-once" % (key, kk), re.search(r"\.resize\s*\(", text) is None,
+                          "the vector is resize()d and then push_back()ed: the library receives N value-initialised elements "
+                          "followed by the N values", "shroud/whelpers.py", sample=dict(helper=key))
+    run.floor(R, "vector-building helpers", nh, 1)
+
+
 def run(repo, run, tier):
     tables.check_model_assumptions(repo)
     T = dict(py=tables.StatementTable(repo, "wrapp", "py_statements"),
@@ -571,4 +607,5 @@ def run(repo, run, tier):
     rule_r9(repo, run)
     rule_r10(repo, run, T)
     rule_r11(repo, run, T)
+    rule_r12(repo, run, T)
     run.assumptions.append("LP64 sizes; CPython PyArg_Parse / Py_BuildValue unit table in the checker")
